@@ -58,11 +58,24 @@ def c08 : Drv where
     | ["e2e_failback", ic] => ((), toString (nat! ic - LATENCY_GRACE_PERIOD_BLOCKS))
     | "node" :: ic :: oc :: best :: cell :: live :: resp :: evs => ((), nodeRun ic oc best cell live resp evs)
     | ["bbuexit", x] => ((), match parseExit x with | some x => toString x.isOk ++ " " ++ toString x.returnsTimedOut | none => "bad-op")
-    | "icpt" :: out :: hs => ((), match Timing.interceptHold (nat! out) (hs.map (fun h => nat! h)) with | some h => toString h | none => "none")
+    | "icpt" :: out :: hs =>
+      -- answered by the nodeStep ACTION (mgrIntercept inside `run`) and by Timing.interceptHold; they must agree
+      let heights := hs.map (fun h => nat! h)
+      let s0 : NodeStep.St := { inCltv := nat! out + MIN_CLTV_EXPIRY_DELTA, outCltv := nat! out, monBest := 0, inCell := false,
+                                outLive := false, intercepted := true }
+      let viaRun := ((NodeStep.run s0 (NodeStep.plainBlocks heights)).2.find? (fun p => p.2 == NodeStep.Act.interceptTimeout)).map (·.1)
+      let viaHold := Timing.interceptHold (nat! out) heights
+      ((), if viaRun != viaHold then "model-mismatch" else match viaRun with | some h => toString h | none => "none")
     | "monscan" :: c :: a :: h :: xs =>
       ((), match xs.mapM parseMonHtlc with
            | some l => toString (Timing.monShouldBroadcast (c == "1") (a == "1") (nat! h) l)
            | none => "bad-op")
+    | ["swept", l] => ((), match Timing.FwdLoc.all.find? (fun x => reprStr x == l || (match x with
+          | .intercepted => "intercepted" | .trampolineAwaiting => "trampolineAwaiting" | .holdingCell => "holdingCell"
+          | .commitment s => "commitment:" ++ s.name) == l) with
+        | some x => toString (Timing.sweptBy x) | none => "bad-op")
+    | ["preempt", ic, h] => ((), toString (earlyFailBack (nat! h) (nat! ic)))
+    | "tramp" :: h :: cs => ((), toString (trampolineTimedOut (nat! h) (cs.map (fun c => nat! c))))
     | ["threshold", h] => ((), toString (confirmationThreshold (nat! h) none))
     | _ => ((), "bad-op")
 
